@@ -163,6 +163,13 @@ func msgOps(b []byte, r *vu.Rng) []string {
 	h := vu.Hex(b)
 	ops := []string{"unpack " + h, "skipall " + h}
 	for k := 0; k < 2; k++ {
+		sc := string(r.BytesFrom("pshk", 1+r.Intn(8)))
+		if r.Chance(1, 6) {
+			sc = "-"
+		}
+		ops = append(ops, "walk "+h+" "+sc)
+	}
+	for k := 0; k < 2; k++ {
 		off := 12
 		if k == 1 || len(b) < 12 {
 			off = r.Intn(len(b) + 2)
